@@ -119,6 +119,37 @@ pub fn expand(seed: u32, n: usize) -> Vec<u8> {
     if seed == 0 {
         return vec![0; n];
     }
+    // 1 seed in 32: content that looks like protocol structure rather than noise (payloads that start with a frame header,
+    // a token signature, a DER header; constant and alternating fills)
+    if seed >> 27 == 0x1F {
+        let magic: &[u8] = match (seed >> 16) % 14 {
+            0 => &[0xFF],
+            1 => &[3, 0, 0, 4],
+            2 => &[3, 0, 0xFF, 0xFF],
+            3 => &[0, 2],
+            4 => &[0x80, 0x80, 3],
+            5 => b"NTLMSSP\0",
+            6 => &[0x30, 0x82, 0xFF, 0xFF],
+            7 => &[2, 0xF0, 0x80],
+            8 => &[0, 0xFF],
+            9 => &[0x7F, 0x66, 0x82],
+            10 => &[0x64, 0, 0, 3, 0xEB, 0x70],
+            11 => &[1, 0, 0, 0],
+            12 => &[0x10],
+            _ => &[0xAA, 0x55],
+        };
+        let repeat = (seed >> 8) & 1 == 0;
+        let mut out = Vec::with_capacity(n);
+        while out.len() < n {
+            if repeat || out.len() < magic.len() {
+                let k = out.len() % magic.len();
+                out.push(magic[k]);
+            } else {
+                out.push(0);
+            }
+        }
+        return out;
+    }
     let mut s = seed as u64 | ((seed as u64) << 32) | 1;
     let mut out = Vec::with_capacity(n);
     while out.len() < n {
